@@ -16,6 +16,7 @@ sys.path.insert(0, "/repo/src")
 from rmc import pipeline  # noqa: E402
 from checks import common  # noqa: E402
 from checks import c05  # noqa: E402
+from checks import c06  # noqa: E402
 
 
 def c05_case(*args):
@@ -67,7 +68,16 @@ FINDINGS = [
     dict(id="KF-C01-global-in-helper", property="C01", status="fixed", commit="8cbce31",
          what="a helper defined before the global it assigns ('global x; x = x + 1') updated a fresh local instead of the global",
          cases=[prog("C01", P + "def bump():\n    global x\n    x = x + 1\n" + AB + "x = a\nbump()\nbump()\nmon.write(x)\n", RUN_AB, "global assigned inside a helper defined before the global")]),
+    dict(id="KF-C11-constant-growth", property="C11", status="fixed", commit="cda3f73",
+         what="named constants grew without bound from line to line (a = a * a, s = s + s): transpilation effectively non-terminating; int(inf) escaped as OverflowError; parenthesised walrus raised SyntaxError; deep nesting escaped as RecursionError", cases=[]),
+    dict(id="KF-C06-string-literal-concat", property="C06", status="fixed", commit="a7da6c2",
+         what="'\"a\" + \"b\"' was emitted as the sum of two C string literals (sketch did not compile)", cases=[]),
+    dict(id="KF-C18-late-animation-never-ticked", property="C18", status="fixed", commit="d4b6861",
+         what="an LCD animation started inside the main loop never advanced (no tick emitted); started inside a helper it referenced an undeclared state variable", cases=[]),
     # ---------------------------------------------------------------- open
+    dict(id="KF-C06-named-exception", property="C06", status="open", commit=None,
+         what="'except Exception:' is emitted as 'catch (Exception &)' although no such type exists in the sketch (does not compile; the project's own test pins this text)",
+         cases=[prog("C06", c06.PRO + "try:\n    tb = a + 1\nexcept Exception:\n    tb = 0\nmon.write(tb)\n", [{"passes": 0, "ar": {"A0": [4]}}], "try/except with a named exception", space="F", feats=["try_named"])]),
     dict(id="KF-C05-rebind", property="C05", status="open", commit=None,
          what="a Servo or Button name declared before the main loop and re-bound to another pin at the top of the loop body keeps driving/sampling the first pin (CPython uses the new object)",
          cases=[c05_case(("servo",), ("both",), ("loop",), True, 2), c05_case(("button",), ("both",), ("loop",), True, 2)]),
